@@ -15,6 +15,8 @@ from .envfull_check import full_model, bars, DAY, CONTRACTS
 CLAUSE_PROPS = {"isolation": ["C10"], "reproducible": ["C10"], "reset_residual": ["C10"], "spec": [],
                 "pair_roll": ["C11"]}   # in the interleaved run, an environment holds another chain contract than its own lead
 H = F(1, 2)
+# each environment observes its portfolio weights through the library feature, declared with its own bounds
+WB = {"A": 4.0, "B": 8.0}
 
 
 def hx(x):
@@ -52,6 +54,9 @@ def _outputs(w, call, out, val):
         o["done"] = bool(val[2])
         r = val[3].get("_rebalancing") if isinstance(val[3], dict) else None
         o["trades"] = None if r is None else [(t.contract.symbol, hx(t.quantity), hx(t.acq_price), str(t.time)) for t in r.trades]
+    obs = val[0] if call == "step" else val
+    if isinstance(obs, dict):
+        o["obs"] = sorted((k, np.asarray(v, dtype=float).tobytes().hex()) for k, v in obs.items() if k == "FeaturePortfolioWeight")
     o["now"] = str(env.now())
     o["holdings"] = sorted((c.symbol, hx(q)) for c, q in env.broker.holdings_quantity.items())
     b = copy.deepcopy(env.broker)
@@ -92,7 +97,7 @@ def replay_chunk(ctx, texts):
         bad = None
         bad_roll = None
         try:
-            ws = {k: replay_envfull.World(ctx["model"], cfgs[k], "simple") for k in "AB"}
+            ws = {k: replay_envfull.World(ctx["model"], cfgs[k], "simple", wbounds=WB[k]) for k in "AB"}
             pos = {"A": 0, "B": 0}
             got = {"A": [], "B": []}
             for who in sched:
@@ -116,7 +121,7 @@ def replay_chunk(ctx, texts):
                     continue
                 # (1) the same calls on a fresh environment run alone
                 AbstractContract.now = saved
-                solo = replay_envfull.World(ctx["model"], cfgs[who], "simple")
+                solo = replay_envfull.World(ctx["model"], cfgs[who], "simple", wbounds=WB[who])
                 ref = []
                 for rec in hists[who]:
                     o, v = _call(solo, rec)
@@ -134,7 +139,7 @@ def replay_chunk(ctx, texts):
                 last = max(i for i, rec in enumerate(hists[who]) if rec["call"] == "reset")
                 if last > 0:
                     AbstractContract.now = saved
-                    fresh = replay_envfull.World(ctx["model"], cfgs[who], "simple")
+                    fresh = replay_envfull.World(ctx["model"], cfgs[who], "simple", wbounds=WB[who])
                     for i, rec in enumerate(hists[who][last:]):
                         o, v = _call(fresh, rec)
                         r = _outputs(fresh, rec["call"], o, v)
